@@ -1,7 +1,7 @@
 """C11 — multi-path and schema extraction agree with single-path get: structural clauses."""
 import collections
 from ..facts import callee_is, op_local, op_place, op_int, FactError, norm_path
-from ..analysis import backward_slice, bool_switch_edges, forward_derived, result_edges
+from ..analysis import backward_slice, bool_switch_edges, forward_derived, result_edges, reachable_cp, bool_chain_env, switch_edges
 from .c01 import short
 
 EXPLANATION = (
@@ -316,17 +316,24 @@ def r11_6(ctx):
     a = op_local(fs[0][1]["args"][0])
     sa = f.src(a) if a is not None else ("multi",)
     ctx.ob("R11.6", "replace:parses-that-span", sa[0] == "call" and sa[1] == sb, f.loc(fs[0][1]["ln"]), "from_slice parses exactly that span")
-    # guarded by should_replace
-    named = [i for i, l in enumerate(f.locals) if l.get("name") == "should_replace"]
-    guarded = False
+    # never for a schema object that has members: from the edge on which key_values.is_empty() is false, the replacement
+    # is unreachable - through control flow, or through a flag that carries the test (followed by constant propagation)
+    tests = []
     for b, t in f.terms():
         if t["k"] == "switch" and t.get("dty") == "bool":
             dl = op_local(t["discr"])
-            sl, leaves = backward_slice(f, [dl]) if dl is not None else (set(), [])
-            from_empty = any(lf[0] == "call" and callee_is(lf[2], "is_empty") for lf in leaves)
-            if from_empty and f.dominates(t["otherwise"], sb) and all(x != t["otherwise"] for v, x in t["targets"]):
-                guarded = True
-    ctx.ob("R11.6", "replace:only-when-schema-leaf-or-empty-object", guarded, f.loc(), "the replacement is guarded by a flag that is false for a non-empty object schema (key_values.is_empty())")
+            sl, leaves = backward_slice(f, [dl], through_calls=False) if dl is not None else (set(), [])
+            if not any(lf[0] == "call" and callee_is(lf[2], "is_empty") for lf in leaves) or any(lf[0] == "call" and not callee_is(lf[2], "is_empty") for lf in leaves):
+                continue
+            negs = sum(1 for x in sl | {dl} for d in f.defs.get(x, []) if d[0] == "stmt" and d[3]["rv"]["k"] == "unop" and d[3]["rv"]["op"] == "Not")
+            edges = dict(switch_edges(f, b))
+            empty_v = 0 if negs % 2 else 1
+            nonempty_t = edges.get(1 - empty_v, edges.get(None))
+            tests.append((b, dl, 1 - empty_v, nonempty_t))
+    guarded = bool(tests) and all(sb not in reachable_cp(f, tgt, env=bool_chain_env(f, dl, v)) for b, dl, v, tgt in tests) \
+        and any(f.dominates(b, sb) or sb in f.reachable_from(b) for b, dl, v, tgt in tests)
+    ctx.ob("R11.6", "replace:only-when-schema-leaf-or-empty-object", guarded, f.loc(), "the replacement is unreachable from the edge on which the schema object has members (key_values.is_empty() is false)" if guarded else
+           "the replacement `*schema = from_slice(span)` is reachable from the edge on which the schema object has members: a non-empty object schema is overwritten by the document's object instead of being filled member by member")
     # recursion only on members found in the schema's key table; others skipped
     recs = [(b, t) for b, t in f.calls() if callee_is(t, "get_by_schema_rec")]
     gm = [(b, t) for b, t in f.calls() if callee_is(t, "get_mut") and "HashMap" in t["callee"]]
